@@ -71,6 +71,16 @@ impl Smp {
             Smp::Gen(q, _) => q.clone_state(),
         }
     }
+    pub fn rvb_sweep(&mut self) {
+        if let Smp::Ising(q, _) = self {
+            q.single_rvb_sweep(None);
+        }
+    }
+    pub fn cluster_step(&mut self) {
+        if let Smp::Ising(q, _) = self {
+            q.single_cluster_step();
+        }
+    }
     pub fn get_n(&self) -> usize {
         match self {
             Smp::Ising(q, _) => q.get_n(),
@@ -255,6 +265,21 @@ pub fn gen_ising_spec(g: &mut SplitMix64) -> IsingSpec {
     IsingSpec { nvars, edges, gamma, h, cutoff, state }
 }
 
+/// frustrated antiferromagnet: triangle, or square with a diagonal, all J > 0 of unequal magnitude, no field
+pub fn gen_frustrated_spec(g: &mut SplitMix64) -> IsingSpec {
+    let nvars = g.range(3, 4) as usize;
+    let js = [0.5, 0.75, 1.0, 1.25, 1.5];
+    let mut edges: Vec<((usize, usize), f64)> = (0..nvars).map(|a| ((a, (a + 1) % nvars), *g.pick(&js))).collect();
+    if nvars == 4 {
+        edges.push(((0, 2), *g.pick(&js)));
+        if g.coin() {
+            edges.push(((1, 3), *g.pick(&js)));
+        }
+    }
+    let gamma = *g.pick(&[0.5, 0.75, 1.0]);
+    IsingSpec { nvars, edges, gamma, h: 0.0, cutoff: g.range(1, 6) as usize, state: (0..nvars).map(|_| g.coin()).collect() }
+}
+
 /// A partner that passes `can_swap_managers` (same edges, same signs of J and h) but has other magnitudes of
 /// J, Γ and h — i.e. a different bond-weight table.
 pub fn gen_partner_spec(g: &mut SplitMix64, a: &IsingSpec) -> IsingSpec {
@@ -419,6 +444,12 @@ pub fn make_sampler(g: &mut SplitMix64, rng: &SharedRng) -> (Smp, &'static str, 
         let sb = gen_partner_spec(g, &sa);
         let partner = sb.build(&SharedRng::new(g.next()));
         (Smp::Ising(sa.build(rng), sa.edges), "ising_swapped", Some(partner))
+    } else if r == 1 {
+        // frustrated lattice with RVB updates: RVB moves get accepted and rotate constant ops at cluster boundaries
+        let spec = gen_frustrated_spec(g);
+        let mut q = spec.build(rng);
+        q.set_run_rvb(true);
+        (Smp::Ising(q, spec.edges), "ising_frustrated_rvb", None)
     } else if r < 4 {
         let (mut s, _) = gen_ising(g, rng);
         let rvb = g.coin();
@@ -467,7 +498,91 @@ pub struct ProbOpts {
     pub bond: Option<usize>,
     /// the model derives the table from the CURRENT Hamiltonian (`gprob`) instead of receiving the stored one (`hprob`)
     pub table_from_ham: bool,
+    /// the cutoff the sampler must sweep with (e.g. the Ising sampler's cutoff at conversion)
+    pub expect_cutoff: Option<usize>,
+    /// if `bond` has weight 0 at the slot: check that no word inserts it (`gzero`) instead of dropping the case
+    pub zero_ok: bool,
 }
+
+/// every stored operator's label agrees with its content: `is_diagonal()` == (inputs == outputs). Ising sampler only
+/// (the generic sampler's loop update may legitimately store `Offdiagonal(x, x)`).
+pub fn check_labels(smp: &Smp, when: &str) -> Result<(), String> {
+    if let Smp::Ising(..) = smp {
+        for (p, o) in smp.slots().iter().enumerate() {
+            if let Some(op) = o {
+                if op.is_diagonal() != (op.get_inputs() == op.get_outputs()) {
+                    return Err(format!("op at p={} has inputs {} outputs {} but is_diagonal() = {} ({})", p, bits(op.get_inputs()), bits(op.get_outputs()), op.is_diagonal(), when));
+                }
+            }
+        }
+    }
+    Ok(())
+}
+
+/// `into_qmc`: the generic sampler that continues the Ising sampler's run; returns it with the Ising cutoff at conversion
+pub fn convert_to_generic(smp: Smp) -> Option<(Smp, usize)> {
+    if let Smp::Ising(q, edges) = smp {
+        let l = q.get_cutoff();
+        let nvars = q.get_nvars();
+        let h = serde_json::to_value(&q).unwrap()["longitudinal"].as_f64().unwrap();
+        let mut vars_list: Vec<Vec<usize>> = edges.iter().map(|((a, b), _)| vec![*a, *b]).collect();
+        for v in 0..nvars {
+            vars_list.push(vec![v]);
+        }
+        if h.abs() > f64::EPSILON {
+            for v in 0..nvars {
+                vars_list.push(vec![v]);
+            }
+        }
+        let gq: GenQ = catch(|| q.into_qmc()).ok()?;
+        Some((Smp::Gen(gq, vars_list), l))
+    } else {
+        None
+    }
+}
+
+/// One examined public diagonal step: trajectory case (`gsweep`: heat-bath with the table of the current Hamiltonian,
+/// `msweep`: Metropolis) with the model-free oracle: count and labels before/after, structural sweep oracle, stored table,
+/// optionally the cutoff the sweep has to use, and — for `drain` (β = 1e-12) — that every operator with inputs == outputs
+/// anywhere in the string is gone afterwards. Returns false if the step panicked.
+pub fn emit_sweep(smp: &mut Smp, rng: &SharedRng, beta: f64, label: &str, heat: bool, expect_cutoff: Option<usize>, drain: bool) -> bool {
+    let beta = if drain { 1e-12 } else { beta };
+    let mut pre = check_count(smp, "before the diagonal step").and_then(|_| check_labels(smp, "before the diagonal step"));
+    let cfg = cfg_of(smp, beta);
+    if let (Ok(()), Some(l)) = (&pre, expect_cutoff) {
+        if cfg.cutoff != l {
+            pre = Err(format!("the sampler sweeps with cutoff {} but the operator string was built with cutoff {}", cfg.cutoff, l));
+        }
+    }
+    // fresh random words (an earlier bisection may have left a script of extreme words behind)
+    static FRESH: std::sync::atomic::AtomicU64 = std::sync::atomic::AtomicU64::new(0x5EED);
+    rng.script(vec![], FRESH.fetch_add(0x9E3779B97F4A7C15, std::sync::atomic::Ordering::Relaxed));
+    let head = if heat { "gsweep" } else { "msweep" };
+    let base = format!("{} {} {} {} {} {}", head, show_table_ham(&cfg.bonds), rat(beta), cfg.cutoff, bits(&cfg.state), show_cfg_slots(&cfg.slots));
+    rng.take_log();
+    if let Err(p) = catch(|| smp.sweep(beta)) {
+        emit(true, &format!("{} -", base), "PANIC", Some(Err(format!("diagonal step panicked ({}): {}", label, p))));
+        return false;
+    }
+    let log = rng.take_log();
+    let out = RunOut { slots: smp.slots(), state: smp.state(), n: smp.get_n(), log: log.clone(), calls: vec![] };
+    let mut oracle = pre.and_then(|_| sweep_oracle(&cfg, &out));
+    if oracle.is_ok() && heat {
+        oracle = check_table(&smp.table(), &cfg.bonds, true);
+    }
+    if oracle.is_ok() {
+        oracle = check_labels(smp, "after the diagonal step");
+    }
+    if oracle.is_ok() && drain {
+        if let Some((p, _)) = out.slots.iter().enumerate().find(|(_, o)| o.as_ref().map(|op| op.get_inputs() == op.get_outputs()).unwrap_or(false)) {
+            oracle = Err(format!("diagonal step at beta = 1e-12 left an operator with inputs == outputs at p={} (string length {}, cutoff {})", p, out.slots.len(), cfg.cutoff));
+        }
+    }
+    stat(&format!("sweep_{}_{}{}", label, head, if drain { "_drain" } else { "" }), 1);
+    emit(true, &format!("{} {}", base, words(&log)), &format!("{} {} ok", show_cfg_slots(&out.slots), bits(&out.state)), Some(oracle));
+    true
+}
+
 
 /// Snapshot / restore idiom: the sampler's operator string is collected with `get_pth` and re-installed through the
 /// public `FastOps::new_from_ops` (sparse list of (p, op)). Ising sampler only (`get_manager_mut`).
@@ -521,6 +636,56 @@ pub fn prob_case(g: &mut SplitMix64) -> bool {
     prob_on(g, &rng, smp, &kind, beta, ProbOpts::default())
 }
 
+/// A bond whose weight at slot k is 0 must never be inserted there: attempt word 0, u word 0 and 512 evenly spaced bond words.
+fn prob_zero(rng: &SharedRng, base: &Smp, cfg: &Cfg, kind: &str, beta: f64, k: usize, b: usize, seed: u64) -> bool {
+    let before = padded(cfg);
+    let prefix: Vec<u64> = before[..k].iter().filter(|o| !is_offdiag(o)).map(|_| u64::MAX).collect();
+    let n_k = count_ops(&before);
+    let input = format!(
+        "gzero {} {} {} {} {} {} {} {}",
+        show_table_ham(&cfg.bonds),
+        rat(beta),
+        cfg.cutoff,
+        bits(&cfg.state),
+        show_cfg_slots(&cfg.slots),
+        words(&prefix),
+        k,
+        b
+    );
+    let mut inserted = None;
+    let mut any = 0;
+    for i in 0..512u64 {
+        let x = (i << 55) + (1u64 << 54);
+        let mut s = base.clone();
+        let mut sc = prefix.clone();
+        sc.extend_from_slice(&[0, 0, x]);
+        sc.extend_from_slice(&vec![u64::MAX; cfg.cutoff + 8]);
+        rng.script(sc, seed);
+        if catch(|| s.sweep(beta)).is_err() {
+            return false;
+        }
+        let sl = s.slots();
+        if sl[..k] != before[..k] {
+            emit(true, &input, "unlocatable", None);
+            return true;
+        }
+        if let Some(op) = &sl[k] {
+            any += 1;
+            if op.get_bond() == b {
+                inserted = Some(x);
+            }
+        }
+    }
+    let oracle = match inserted {
+        Some(x) => Err(format!("bond {} has weight 0 at slot {} but bond word {} inserts it", b, k, x)),
+        None if any == 0 => Err("no bond word inserted anything although the table total is positive".to_string()),
+        None => Ok(()),
+    };
+    stat(&format!("prob_zero_weight_{}", kind), 1);
+    emit(true, &input, &format!("{} {}", n_k, approx(if inserted.is_some() { 1.0 } else { 0.0 })), Some(oracle));
+    true
+}
+
 /// Threshold bisection of the heat-bath draws of one empty slot inside the sampler's public diagonal step, and of
 /// the removal of the inserted operator in the next step. Emits one case; returns false if the case was dropped.
 pub fn prob_on(g: &mut SplitMix64, rng: &SharedRng, smp: Smp, kind: &str, beta: f64, opts: ProbOpts) -> bool {
@@ -528,9 +693,24 @@ pub fn prob_on(g: &mut SplitMix64, rng: &SharedRng, smp: Smp, kind: &str, beta: 
         emit(true, &format!("count-mismatch {}", kind), "BAD", Some(Err(e)));
         return true;
     }
+    if let Err(e) = check_labels(&smp, "before the diagonal step") {
+        emit(true, &format!("label-mismatch {}", kind), "BAD", Some(Err(e)));
+        return true;
+    }
     let base = smp.clone();
     let cfg = cfg_of(&base, beta);
     let l = cfg.cutoff;
+    if let Some(want_l) = opts.expect_cutoff {
+        if l != want_l {
+            emit(
+                true,
+                &format!("cutoff-mismatch {} {} {} {}", kind, l, bits(&cfg.state), show_cfg_slots(&cfg.slots)),
+                "BAD",
+                Some(Err(format!("the sampler sweeps with cutoff {} but the operator string was built with cutoff {}", l, want_l))),
+            );
+            return true;
+        }
+    }
     let before = padded(&cfg);
     let (mx, cum) = if opts.table_from_ham {
         // the table the sampler has to use is the one of its current interaction list
@@ -567,6 +747,9 @@ pub fn prob_on(g: &mut SplitMix64, rng: &SharedRng, smp: Smp, kind: &str, beta: 
         .collect();
     let b = if let Some(bb) = opts.bond {
         if !cands.contains(&bb) {
+            if opts.zero_ok && opts.table_from_ham && bb < cfg.bonds.len() {
+                return prob_zero(rng, &base, &cfg, kind, beta, k, bb, g.next());
+            }
             return false;
         }
         bb
